@@ -548,6 +548,20 @@ fn run(ctx: &mut Ctx) {
     for (name, p) in lattice_programs(&names) {
         ctx.case(|| json!({"space":"lattice","program":name}), |ctx| check_lattice_program(ctx, &name, &p));
     }
+    // the instantiation lattice of C14: one function per accepted (libfunc, generic arguments) pair over edge
+    // types - zero-sized, empty enum, consts of every shape, circuit gates - none produced by the compiler
+    let inst = crate::c14inst::compiled_wrappers(tier);
+    for chunk in inst.chunks(40) {
+        ctx.case(
+            || json!({"space":"instantiation-lattice","first":chunk[0].0}),
+            |ctx| {
+                for (name, p) in chunk {
+                    ctx.count("instantiation_programs", 1);
+                    check_program(ctx, name, p, true);
+                }
+            },
+        );
+    }
     // Sierra generated by the compiler from the examples (every generic-arg kind the generator emits)
     if tier == Tier::Thorough || true {
         ctx.case(
@@ -564,7 +578,7 @@ fn run(ctx: &mut Ctx) {
 pub static C18: CheckDef = CheckDef {
     id: "C18",
     level: "exploration",
-    rule: "Complete pass over (a) every parseable corpus Sierra program (e2e sierra_code sections + *.sierra files; quick: <=400 statements) and the Sierra the compiler generates for examples/ (debug-name ids), and (b) a programmatically built format lattice: every GenericArg kind x 10 boundary values / 24 id spellings (numeric, 1..70 chars, containing :: <> [] @ , digits) in a type and a libfunc declaration x declared-type-info combinations; every id style x statement shape (0/1/3 branches, fallthrough/explicit, 0..3 args/results, empty return, function without params). Oracles: parse(display(s)) succeeds, display is a fixpoint, parsed program isomorphic (equal canonical shape; equal ids on the lattice); serde_json VersionedProgram round trip equal; extract_sierra_program(ContractClass::new(canon(s))) == canon(s) minus debug names; CASM text of s, canon(s), name-stripped s, text- and felt-round-tripped s byte-identical (or all rejected). distinct_nontrivial = distinct program texts.",
+    rule: "[also over every compiling wrapper program of the C14 instantiation lattice (~960 quick), none of which the compiler produces] Complete pass over (a) every parseable corpus Sierra program (e2e sierra_code sections + *.sierra files; quick: <=400 statements) and the Sierra the compiler generates for examples/ (debug-name ids), and (b) a programmatically built format lattice: every GenericArg kind x 10 boundary values / 24 id spellings (numeric, 1..70 chars, containing :: <> [] @ , digits) in a type and a libfunc declaration x declared-type-info combinations; every id style x statement shape (0/1/3 branches, fallthrough/explicit, 0..3 args/results, empty return, function without params). Oracles: parse(display(s)) succeeds, display is a fixpoint, parsed program isomorphic (equal canonical shape; equal ids on the lattice); serde_json VersionedProgram round trip equal; extract_sierra_program(ContractClass::new(canon(s))) == canon(s) minus debug names; CASM text of s, canon(s), name-stripped s, text- and felt-round-tripped s byte-identical (or all rejected). distinct_nontrivial = distinct program texts.",
     assumptions: &["Program equality is id-based (debug names ignored), as defined by the crate", "lattice programs need not be valid Sierra: only serialization is exercised on them"],
     run,
     stack_mb: 16,
